@@ -96,6 +96,7 @@ def gen(S, tier):
         listeners.append([f.pick([-10, 0, 5]), f.weighted([("pass", 4), ("handle", 3), ("fail", 2)]), f.pick([0, 3, 300, -2, "9"])])
         if listeners[-1][1] == "handle" and S("extension").chance(0.25):
             listeners[-1][2] = "unset"
+    cwd_gone = S("extension").chance(0.1)  # fault: the directory the program was started in is gone
     prior = [srcgen.gen_exc_spec(f) for _ in range(f.weighted([(0, 6), (1, 3), (2, 1)]))]
     if prior and outcome[0] == "raise" and isinstance(outcome[1], dict) and f.chance(0.35):
         first, second = srcgen.interacting_pair(f)
@@ -128,7 +129,7 @@ def gen(S, tier):
         "handler_kind": c.pick(["object", "object", "callback", "callback_var", "factory"]),
         # failing runs of the same process *before* the run under test (another application object,
         # another message): what their error reports leave behind must not matter
-        "prior": prior,
+        "prior": prior, "cwd_gone": cwd_gone,
     }
 
 
@@ -315,12 +316,18 @@ def execute(sc):
                 fr = fr.f_back
             sys.setrecursionlimit(depth + 260)
             res.probe("real_recursion_error")
+        import clikit.ui.components.exception_trace as et_mod
+        from ..simenv import cwd_removed
         try:
-            status = app.run(ArgvArgs(["prog"] + tokens), inp, out, err)
+            with cwd_removed(et_mod, bool(sc.get("cwd_gone"))) as cwd_hits:
+                status = app.run(ArgvArgs(["prog"] + tokens), inp, out, err)
         except BaseException as e:  # nothing may escape, not even KeyboardInterrupt
             raised = e
         finally:
             sys.setrecursionlimit(old_limit)
+        if cwd_hits[0]:
+            res.fault("working_directory_removed", cwd_hits[0])
+            res.probe("report_without_working_directory")
         log.add("status", repr(status), type(raised).__name__ if raised else None)
     finally:
         if old_open is None:
